@@ -329,8 +329,10 @@ func (q *Queue) MaybeRemoveMissing(ids []uint32) []uint32 {
 	defer q.mu.Unlock()
 
 	var removed []uint32
-	for _, item := range q.items {
-		if _, ok := set[item.opts.RepoID]; ok {
+	// Use the key of the map rather than item.opts.RepoID: an item created by
+	// SetIndexed for a repository that was never added has zero valued opts.
+	for repoID, item := range q.items {
+		if _, ok := set[repoID]; ok {
 			continue
 		}
 
@@ -340,9 +342,9 @@ func (q *Queue) MaybeRemoveMissing(ids []uint32) []uint32 {
 
 		item.indexState = ""
 
-		delete(q.items, item.opts.RepoID)
+		delete(q.items, repoID)
 
-		removed = append(removed, item.opts.RepoID)
+		removed = append(removed, repoID)
 	}
 
 	metricQueueLen.Set(float64(len(q.pq)))
